@@ -277,9 +277,26 @@ func newKV(elem, capHint int) kvAPI {
 type inst struct {
 	m    kvAPI
 	init map[int]int
+	// the twin: a second map of the same types that every thread uses alternately with the first:
+	// before each operation it stores a fresh value under a key only this thread writes, after
+	// it the value must still be there.  Two maps share nothing (package-level caches, pools or
+	// locks would couple them).
+	tw    kvAPI
+	twN   [16]int
+	twErr [16]string
 }
 
 func (x *inst) Do(t int, op sim.Op) sim.Rec {
+	if x.tw != nil && t < len(x.twN) {
+		x.twN[t]++
+		k, v := 200+t*4+x.twN[t]%3, t<<16|x.twN[t]
+		x.tw.Set(k, v)
+		defer func() {
+			if got, ok := x.tw.Get(k); (!ok || got != v) && x.twErr[t] == "" {
+				x.twErr[t] = fmt.Sprintf("twin map (used alternately with the first by every thread): thread %d stored %#x under its own key %d and read back %#x, %v", t, v, k, got, ok)
+			}
+		}()
+	}
 	var r sim.Rec
 	op = clampOp(op)
 	switch op.Op {
@@ -384,6 +401,9 @@ func gen(r *sim.Rng, tier string) *sim.Case {
 		c.Params["init_pct"] = r.Range(50, 100)
 	}
 	c.Params["nkeys"] = nKeys
+	if r.Pct(8) {
+		c.Params["twin"] = 1 // a second map is used alternately by every thread
+	}
 	c.Params["elem"] = r.Pick(6, 3, 3, 2, 2) // key/value types: int/int, string/string, struct/three-word struct, interface/pointer, int/struct{}
 	if nKeys <= 32 {
 		c.Params["init_mask"] = r.N(1 << nKeys)
@@ -480,6 +500,9 @@ func setKeys(c *sim.Case) {
 func build(c *sim.Case) enga.Instance {
 	setKeys(c)
 	x := &inst{m: newKV(c.P("elem"), r2(c.P("init_mask"))), init: map[int]int{}}
+	if c.P("twin") == 1 && c.P("elem") != 4 {
+		x.tw = newKV(c.P("elem"), 0)
+	}
 	for k := 0; k < nKeys; k++ {
 		present := false
 		if nKeys <= 32 {
@@ -667,6 +690,14 @@ const site = "mapz.(*SafeKV)"
 func check(run *enga.Run) *sim.Violation {
 	c, recs, res := run.Case, run.Recs, run.Res
 	x := run.Inst.(*inst)
+	if x.tw != nil {
+		run.Out.Probes["twin_instance_used_alternately"]++
+		for _, e := range x.twErr {
+			if e != "" {
+				return &sim.Violation{Class: "model_mismatch:Get", Site: site + ".Get", Detail: e}
+			}
+		}
+	}
 	switch res.End {
 	case core.EndBudget, core.EndStuckSpin:
 		return &sim.Violation{Class: "liveness", Site: site, Detail: "run did not finish under the fair policy: " + core.EndNames[res.End]}
